@@ -18,8 +18,8 @@ CHECKS = {
             "DESIGN.md §6 C02"),
     "C03": ("exploration",
             "property-based differential testing (proptest) against the reduct definition of stable models",
-            "Generated ADFs; 20 call paths (plain, pre-filter, both rewritings x native/hybrid/from_biodivine/biodivine) and the CLI stable flags compared as multisets with the definition (two-valued models re-derived by the grounded interpretation of the reduct); a part runs with logging switched on.",
-            "Trusts oracle.rs. Bounded to n<=7 statements.",
+            "Generated ADFs; 20 call paths (plain, pre-filter, both rewritings x native/hybrid/from_biodivine/biodivine) and the CLI stable flags compared as multisets with the definition (two-valued models re-derived by the grounded interpretation of the reduct); parts with logging switched on, with ADFs of 6..11 statements that have tens to hundreds of two-valued models (oracle by formula evaluation), and with a shared variable container that grows between the biodivine ADF and the hybrid step.",
+            "Trusts oracle.rs. Truth-table oracle for n<=7 statements, formula-evaluation oracle (small supports) up to 11.",
             "DESIGN.md §6 C03"),
     "C04": ("exploration",
             "property-based differential testing (proptest) against the reduct definition of stable models",
@@ -38,12 +38,12 @@ CHECKS = {
             "DESIGN.md §6 C06"),
     "C07": ("exploration",
             "stateful property-based testing (proptest op sequences) against a truth-table shadow model",
-            "After every generated operation (default build and all 12 feature builds, variables spread across the 64/128 index boundaries) the result handle is walked under all 2^k assignments and compared with the function the operation names; old handles must keep their functions (checked whenever the node-table prefix changes, after re-materialisations and at the end).",
+            "After every generated operation (default build and all 12 feature builds, variables spread across the 64/128 index boundaries) the result handle is walked under all 2^k assignments and compared with the function the operation names; old handles must keep their functions (checked whenever the node-table prefix changes, after re-materialisations and at the end). A further part imports states whose unique table is incomplete (sharing may be lost, functions must stay right).",
             "Trusts bddmodel.rs and sut::walk; k<=6 (thorough 9) variables.",
             "DESIGN.md §6 C07"),
     "C13": ("exploration",
             "property-based testing (proptest) of read-only queries against own DFS / truth-table computations",
-            "All query kinds on every handle of generated operation sequences and on acceptance conditions of generated ADFs are compared with independent computations (path DFS, truth-table counts, semantic support, cube cover/disjointness).",
+            "All query kinds on every handle of generated operation sequences and on acceptance conditions of generated ADFs are compared with independent computations (path DFS, truth-table counts, semantic support, cube cover/disjointness); part deep: diagrams over 20..60 variables with depth gaps up to 59 against a level-based count in 128-bit arithmetic.",
             "Memoised model counts are excluded in the default build (documented exception) and covered by C12's builds. Trusts bddmodel.rs.",
             "DESIGN.md §6 C13"),
     "C18": ("exploration",
@@ -53,7 +53,7 @@ CHECKS = {
             "DESIGN.md §6 C18"),
     "C19": ("exploration",
             "schedule-owning property-based testing (proptest): generated + exhaustively enumerated message-prefix cuts, plus real threads",
-            "The harness owns the schedule by interposing between producer channel and receiver channel; every observable interleaving is a prefix cut. Generated schedules incl. relay chains, exhaustive one/two-poll schedules for short streams, and a real-thread run checking the timing-independent prefix invariant.",
+            "The harness owns the schedule by interposing between producer channel and receiver channel; every observable interleaving is a prefix cut. Generated schedules incl. relay chains, exhaustive one/two-poll schedules for short streams, a real-thread run checking the timing-independent prefix invariant, streams of diagrams over 65..100 variables, and the mirrored stream in all 12 feature builds.",
             "Relies on the channel being unbounded (producer never blocks).",
             "DESIGN.md §6 C19"),
     "C20": ("exploration",
@@ -68,7 +68,7 @@ CHECKS = {
             "DESIGN.md §6 C08"),
     "C09": ("translation_validation",
             "per-program translation validation driven by proptest-generated ADFs (exhaustive over each formula's support, sampled above 14 variables)",
-            "Every generated ADF (small and large: up to 60 statements, deep formulas) is validated individually: each statement's diagram is compared with its formula on all assignments of the formula's support, for native compilation, biodivine import and pre-grounded import (with grounded values substituted).",
+            "Every generated ADF (small and large: up to 110 statements, deep formulas; part chains: 65..100 statements with conditions that are chains over all statements, up to 2^99 paths) is validated individually: each statement's diagram is compared with its formula on all assignments of the formula's support, for native compilation, biodivine import and pre-grounded import (with grounded values substituted).",
             "Supports above 14 variables are sampled (4000 assignments). Trusts formula.rs evaluator, sut::walk, oracle::grounded_local.",
             "DESIGN.md §6 C09"),
     "C10": ("exploration",
@@ -78,13 +78,13 @@ CHECKS = {
             "DESIGN.md §6 C10"),
     "C11": ("exploration",
             "stateful property-based testing (proptest API-call histories): history object vs fresh object vs twin object vs oracle",
-            "Generated histories of public API calls on one object; after every call the answer is compared with a fresh object's, with the definition, and with an identically built twin's raw answer (determinism); acceptance handles must keep their functions.",
+            "Generated histories of public API calls on one object; after every call the answer is compared with a fresh object's, with the definition, and with an identically built twin's raw answer (determinism); acceptance handles must keep their functions. A second part compares a store that received its nodes over the channel and was repaired with the store that built them.",
             "Memoised model counts are never queried (documented exception). n<=6 statements.",
             "DESIGN.md §6 C11"),
     "C14": ("exploration",
             "round-trip property-based testing (proptest): export/import at generated points of an object's life",
-            "Generated ADFs are exported after generated call prefixes through serde JSON + fix_import and through the database-style node list; numbering, handles, names and all semantics answers must be preserved and agree with the definition. The server's real storage layer is driven through the MongoDB stub (part web-storage) and the CLI --export/--import in all modes with decoy neighbour files and sorting options (part cli-export).",
-            "n<=6 for the library part (n up to 14 through the web service).",
+            "Generated ADFs are exported after generated call prefixes through serde JSON + fix_import and through the database-style node list; numbering, handles, names and all semantics answers must be preserved and agree with the definition (part deep-roundtrip: 65..90 statements with a chain over all of them, differential only). The server's real storage layer is driven through the MongoDB stub (part web-storage) and the CLI --export/--import in all modes with decoy neighbour files and sorting options (part cli-export).",
+            "n<=6 for the library part with the definitional oracle (65..90 without it, n up to 14 through the web service).",
             "DESIGN.md §6 C14"),
     "C15": ("exploration",
             "black-box property-based testing (proptest) of the CLI binary in all three library modes against the truth-table oracle",
@@ -93,7 +93,7 @@ CHECKS = {
             "DESIGN.md §6 C15"),
     "C12": ("exploration",
             "differential property-based testing (proptest) across 12 builds of the same executor, each self-checked against the oracles",
-            "Every generated case is executed by probe binaries compiled against the library under all 12 feature combinations; each probe checks its answers against shadow model / definitional oracle and emits a canonical transcript that must equal the default build's (documented exception excluded).",
+            "Every generated case is executed by probe binaries compiled against the library under all 12 feature combinations; each probe checks its answers against shadow model / definitional oracle and emits a canonical transcript that must equal the default build's (documented exception excluded); in an exchange round every build works on the state another build exported.",
             "Only the library's feature matrix; transcripts are handle-free (semantic) so that harmless renumbering is not reported.",
             "DESIGN.md §6 C12"),
     "C16": ("exploration",
@@ -151,7 +151,7 @@ def main():
              "kind_free_text": "Rust binary built on proptest (sharded deterministic TestRunners seeded from VERIF_SEED), own truth-table oracles, shadow models, replay files"},
         ],
         "checks": checks,
-        "notes": "Every check replays the committed regression cases in /verif/regress/<id>/ first, then runs generated search. exit 2 = inconclusive (build/infrastructure), never reported as a violation. Known findings: /verif/known-findings.json.",
+        "notes": "Every check replays the committed regression cases in /verif/regress/<id>/ first, then runs generated search; library-level parts run a second time (30 % of the cases, other seeds) against adf_bdd built without debug assertions and overflow checks (release lane; not for C12, C15, C16, C17). Thorough adds libFuzzer campaigns (14 parallel processes, same oracles in-target) for C06, C07, C08, C13, C18, C19. exit 2 = inconclusive (build/infrastructure), never reported as a violation. Known findings: /verif/known-findings.json.",
         "not_applicable": na,
     }
     with open(os.path.join(ROOT, "MANIFEST.json"), "w") as f:
